@@ -124,6 +124,12 @@ fn encoder<const T: usize>() {
 
 #[kani::proof]
 #[kani::unwind(10)]
+fn c11_encoder_t0() {
+    encoder::<0>();
+}
+
+#[kani::proof]
+#[kani::unwind(10)]
 fn c11_encoder_t1() {
     encoder::<1>();
 }
@@ -171,6 +177,29 @@ fn c11_builder_empty() {
                     assert!(false, "a sink failure must surface as Error::Io");
                 }
             }
+        }
+    }
+}
+
+/// Builder::new alone over the faulty sink (the two header writes).
+#[kani::proof]
+#[kani::unwind(10)]
+fn c11_builder_new() {
+    let s = any_sink(3);
+    let fail_at = s.fail_at;
+    match Builder::verif_new_type_with_cache(s, 0, 0, 0) {
+        Err(Error::Io(e)) => {
+            core::mem::forget(e);
+            assert!(fail_at < 2, "Builder::new failed although no header write failed");
+        }
+        Err(e) => {
+            core::mem::forget(e);
+            assert!(false, "a sink failure must surface as Error::Io");
+        }
+        Ok(b) => {
+            assert!(fail_at >= 2, "Builder::new succeeded although a header write failed");
+            assert!(b.bytes_written() == 16 && b.get_ref().accepted == 16);
+            core::mem::forget(b);
         }
     }
 }
